@@ -1,7 +1,10 @@
-(* Proofs/DequeAbaDefs.v — the concurrent invariant of the lock-free deque under the guard
-   [aba = false] (no link CAS has hit a freed / re-allocated node; nodes MAY be recycled): definitions and basic lemmas (the step proof is in Proofs/DequeAbaProofs.v; same structure as Proofs/DequeConc*.v, with
-   "allocated and not freed" = odd epoch instead of epoch 1 and the link-tag argument made
-   per incarnation of the node).
+(* Proofs/DequeAbaDefs.v — the concurrent invariant of the REPAIRED lock-free deque (link tags continue
+   across node reuse; nodes are recycled without restriction; NO guard): definitions (the step proof is
+   in Proofs/DequeAbaProofs.v; the files keep their names from the previous round, in which the same
+   invariant was proved under the guard [aba = false] — the guard is now a theorem, [aba_step]).
+   "Allocated and not freed" = odd epoch; a thread before its link CAS knows
+   "(snapshot current and link = expected) or tag(expected) < tag(link)", the second disjunct being
+   stable for ever because a link's tag never decreases over the lifetime of its address.
 
    [Core g ls c pend] relates a state of Model/Deque.v to
      c    : the abstract chain, the addresses of the nodes of the deque from left to right, and
@@ -67,7 +70,7 @@ Definition J (g : dq_shared) (c pend : list addr) (l : dq_local) : Prop :=
       Jk g c pend l k /\ stab_ok g s lrs /\ (lrs = anc g -> second s c (aend s lrs) (lptr prev)) /\
       lptr pn <> aend s lrs /\ e <= epoch g (lptr prev) /\
       ((lrs = anc g /\ outward s (heap g (lptr prev)) = pn /\ epoch g (lptr prev) = e) \/
-       (epoch g (lptr prev) = e -> lnk_lt g s (lptr prev) pn /\ (In (lptr prev) c \/ In (lptr prev) pend)))
+       (lnk_lt g s (lptr prev) pn /\ epoch g (lptr prev) <> 0))
   | S6 k s lrs => Jk g c pend l k /\ stab_ok g s lrs /\ (lrs = anc g -> fixed g s c)
   end.
 
